@@ -1659,7 +1659,16 @@ enum ServerOutcome {
     Inconclusive(String),
 }
 
+/// `GossipManager::start_server` binds 3001 + replica id itself, so the harness can only *probe*
+/// for a free port, release it and let the server bind it again. Cases run on 16 worker threads:
+/// two cases probing at the same moment can be handed the same port, one server then fails to
+/// listen and its client talks to the OTHER case's server (seen once, on a fresh copy of the
+/// sandbox: one case received 0 of 7 deltas, its neighbour 24 instead of 17). The cases of this
+/// sub-check therefore run one at a time.
+static SERVER_CASE_LOCK: std::sync::Mutex<()> = std::sync::Mutex::new(());
+
 fn run_server_case(c: &ServerCase) -> Result<(Vec<(String, u32, usize)>, ServerOutcome), String> {
+    let _one_at_a_time = SERVER_CASE_LOCK.lock().unwrap_or_else(|p| p.into_inner());
     use redis_sim::production::GossipManager;
     use tokio::io::{AsyncReadExt, AsyncWriteExt};
     use tokio::net::{TcpListener, TcpStream};
@@ -1668,6 +1677,12 @@ fn run_server_case(c: &ServerCase) -> Result<(Vec<(String, u32, usize)>, ServerO
     let mut stream_bytes: Vec<u8> = Vec::new();
     let mut tag = 0u32;
     let src = ReplicaId::new(7);
+    // every delta of this case carries a nonce (process id and case number) as its Lamport time:
+    // a delta that reaches our callback with another nonce came over a connection that was not
+    // ours (another process probing the same port at the same moment) - the case is then
+    // inconclusive, not a violation
+    static CASE_NO: std::sync::atomic::AtomicU64 = std::sync::atomic::AtomicU64::new(1);
+    let nonce: u64 = ((std::process::id() as u64) << 24) | (CASE_NO.fetch_add(1, std::sync::atomic::Ordering::Relaxed) & 0xFF_FFFF);
     for (fi, f) in c.frames.iter().enumerate() {
         let deltas: Vec<ReplicationDelta> = f
             .deltas
@@ -1677,7 +1692,7 @@ fn run_server_case(c: &ServerCase) -> Result<(Vec<(String, u32, usize)>, ServerO
                 let key = key_at(*ki).to_string();
                 let v = ReplicatedValue::with_value(
                     SDS::from_str(&format!("t{}:{}", tag, "x".repeat(*len as usize))),
-                    LamportClock::new(src),
+                    LamportClock { time: nonce, replica_id: src },
                 );
                 ReplicationDelta::new(key, v, src)
             })
@@ -1718,10 +1733,16 @@ fn run_server_case(c: &ServerCase) -> Result<(Vec<(String, u32, usize)>, ServerO
         let got: Arc<std::sync::Mutex<Vec<(String, u32, usize)>>> = Arc::new(std::sync::Mutex::new(Vec::new()));
         let bad: Arc<std::sync::Mutex<Option<String>>> = Arc::new(std::sync::Mutex::new(None));
         let (g2, b2) = (got.clone(), bad.clone());
+        let foreign = Arc::new(std::sync::atomic::AtomicBool::new(false));
+        let f2 = foreign.clone();
         let server = tokio::spawn(GossipManager::start_server(
             cfg,
             Arc::new(move |deltas: Vec<ReplicationDelta>| {
                 for d in &deltas {
+                    if d.value.timestamp.time != nonce {
+                        f2.store(true, std::sync::atomic::Ordering::SeqCst);
+                        continue;
+                    }
                     match padded_tag(d) {
                         Ok(x) => g2.lock().unwrap().push(x),
                         Err(e) => *b2.lock().unwrap() = Some(e),
@@ -1765,7 +1786,16 @@ fn run_server_case(c: &ServerCase) -> Result<(Vec<(String, u32, usize)>, ServerO
             Ok::<(), std::io::Error>(())
         };
         let r = tokio::time::timeout(std::time::Duration::from_secs(20), io).await;
+        // the accept loop never returns by itself: a finished server task means it could not bind
+        // (someone else owns the port) and whatever we talked to was not our server
+        let server_died = server.is_finished();
         server.abort();
+        if server_died {
+            return ServerOutcome::Inconclusive("server: exited (could not listen); the peer we reached was not ours".into());
+        }
+        if foreign.load(std::sync::atomic::Ordering::SeqCst) {
+            return ServerOutcome::Inconclusive("a connection that was not ours delivered deltas to this server".into());
+        }
         match r {
             Err(_) => ServerOutcome::Inconclusive("timeout".into()),
             Ok(Err(e)) => ServerOutcome::Inconclusive(format!("io: {}", e.kind())),
